@@ -6,6 +6,7 @@ import TsRsVerif.Lemmas.HistoryMulti
 import TsRsVerif.Lemmas.HistoryTo
 import TsRsVerif.Lemmas.HistoryToMulti
 import TsRsVerif.Lemmas.HistoryRepeat
+import TsRsVerif.Lemmas.WalkMany
 /-!
 # C06 — export results depend only on what was exported, not how or in what order
 
@@ -229,6 +230,34 @@ example : Dedup [] exRepOps [(0, exB), (1, exO), (0, exA)] :=
 #guard (runOpsTo exTSlots { fs := exFs0, reg := [] } exRepOps).2
 #guard ((runOpsTo exTSlots { fs := exFs0, reg := [] } exRepOps).1.fs.lookup ["w".toList, "out".toList, "deep".toList, "shared.ts".toList])
   == some (.file (fileText (canonSt [exB, exA])))
+
+/-- **any number of `export_all` calls in one process**: each call walks from its root with a fresh `seen` set, so a type reachable
+from two roots is exported twice. Whenever the calls succeed, every target file holds exactly the canonical text of the types reachable
+from ANY of the roots that belong there — once each, in name order, whatever the order of the calls and of the walks — and every other
+regular file is as it was (`Lemmas/WalkMany.lean`: the calls are one sequence of `export_into` steps with repeats; `tmulti_repeats`). -/
+theorem C06_export_all_sequences (u : Universe) (slots : List TSlot) (dir : Str) (gen : Nat → GenT) (rel : Nat → Str) (slotOf : Nat → Nat)
+    (fuel : Nat) (w w' : World) (roots : List Nat) (h : Walks u dir fuel w roots w')
+    (htab : ∀ j, (∃ r ∈ roots, Reach u r j) → TableOK u slots dir gen rel slotOf j)
+    (hs : TSlotsOK w.fs slots)
+    (hsp : ∀ j, (∃ r ∈ roots, Reach u r j) → ∀ s, slots[slotOf j]? = some s → Path.absolute (cwdStr w.fs) (Path.join dir (rel j)) = .ok s.path)
+    (hgen : ∀ j, (∃ r ∈ roots, Reach u r j) → GenOK (gen j))
+    (hname : ∀ j j', (∃ r ∈ roots, Reach u r j) → (∃ r ∈ roots, Reach u r j') → slotOf j = slotOf j' → (gen j).name = (gen j').name → j = j')
+    (hident : ∀ j j', (∃ r ∈ roots, Reach u r j) → (∃ r ∈ roots, Reach u r j') → slotOf j = slotOf j' → (gen j).ident = (gen j').ident → j = j')
+    (hp : w.poisoned = false) (hreg : ∀ s ∈ slots, regGet w.reg (regKey s.path) = none) :
+    ∃ news : List Nat, news.Nodup ∧ (∀ j, j ∈ news ↔ ∃ r ∈ roots, Reach u r j) ∧
+      TInv w.fs slots (news.map fun j => (slotOf j, gen j)) w' :=
+  walks_files u slots dir gen rel slotOf fuel w w' roots h htab hs hsp hgen hname hident hp hreg
+
+/-! non-vacuity: two roots with a common dependency that shares its file with the second root -/
+def exMGen : Nat → GenT := fun j => if j = 0 then exA else if j = 1 then exB else exO
+def exMRel : Nat → Str := fun j => if j = 2 then "Other.ts".toList else "deep/shared.ts".toList
+def exMU : Universe := [0, 1, 2].map fun j => { ident := (exMGen j).ident, outputPath := some (exMRel j), text := .ok (genText (exMGen j)), deps := if j = 2 then [] else [2] }
+def exMW : World := { fs := exFs0, reg := [] }
+def exMAfter (roots : List Nat) : Option World := roots.foldl (fun ow r => ow.bind fun w => (exportRec exMU 8 w [] "./out".toList r).bind fun x =>
+  if x.2.2 == Outcome.ok then some x.1 else none) (some exMW)
+#guard ((exMAfter [0, 1]).bind fun w => w.fs.lookup ["w".toList, "out".toList, "deep".toList, "shared.ts".toList]) == some (.file (fileText (canonSt [exA, exB])))
+#guard ((exMAfter [1, 0]).bind fun w => w.fs.lookup ["w".toList, "out".toList, "deep".toList, "shared.ts".toList]) == some (.file (fileText (canonSt [exA, exB])))
+#guard ((exMAfter [1, 0]).bind fun w => w.fs.lookup ["w".toList, "out".toList, "Other.ts".toList]) == some (.file (fileText (canonSt [exO])))
 
 /-- before the fix `export()` keyed the registry by the un-normalised path: as `PathBuf`s the two
 spellings of one file are different keys -/
